@@ -2,12 +2,14 @@
 package c17
 
 import (
+	"bytes"
 	"fmt"
 	"math"
 	"strconv"
 	"strings"
 	"testing"
 
+	"github.com/ctessum/geom"
 	"github.com/ctessum/geom/encoding/wkt"
 	"pgregory.net/rapid"
 	"verif/vkit"
@@ -220,6 +222,13 @@ func run(c Case) (v vkit.Verdict) {
 	b, err := wkt.Encode(g)
 	if err != nil {
 		return v.Fail("Encode error: %v", err)
+	}
+	// the text belongs to the caller: later Encode calls must not change it
+	snap := append([]byte(nil), b...)
+	wkt.Encode(geom.LineString{{X: 7, Y: 7}, {X: 8, Y: 9.5}, {X: 1000, Y: -2}})
+	wkt.Encode(geom.Point{X: 7, Y: 7})
+	if !bytes.Equal(b, snap) {
+		return v.Fail("the text returned by Encode(g) was changed by later Encode calls: was %s, is %s", snap, b)
 	}
 	back, err := parseWKT(string(b))
 	if err != nil {
